@@ -141,8 +141,10 @@ class TunnelWorld:
 
         def on_send(pkt, fate) -> None:  # noqa: ANN001
             pkt.fate = fate
-            self.wire.append(pkt)
             self.by_id[pkt.id] = pkt
+            if fate == "dup":
+                return          # network-made copy: reachable through causality chains, not listed as a send of its own
+            self.wire.append(pkt)
         self.net.on_send.append(on_send)
 
     def uninstall_probes(self) -> None:
